@@ -78,4 +78,41 @@ PROPS = {
         "assumptions": ["single log file per scenario in this stream (rotation / checkpoint.meta skipping is modelled in Wal.recover but not yet streamed)",
                         "GrafeoDB-level crash scenarios (open -> ops -> kill -> open) are C05's stream"],
     },
+    "C11": {
+        "stream": "ops",
+        "lean_module": "GrafeoModel.Props.C11",
+        "lean_files": ["GrafeoModel/Model/Ops.lean", "GrafeoModel/Props/C11.lean"],
+        "cases": {"quick": 400, "thorough": 12000},
+        "stateless": True,
+        "trusted_base": COMMON_TB + [
+            "modelled, not verified: DataChunk / DataChunkBuilder / ValueVector (a chunk is the list of its selected rows), the Operator pull protocol (a child is the list of chunks it returns before None)",
+        ],
+        "modelled": "operators/limit.rs (LimitOperator, SkipOperator, LimitSkipOperator), operators/union.rs, operators/distinct.rs (RowKey, seen set, builder capacity early return)",
+        "assumptions": ["predicate three-valued partition (filter.rs), count(*), sort and the query-level identities in the five languages are not yet modelled/streamed: this check decides the limit/skip/union/distinct half at operator level"],
+    },
+    "C16": {
+        "stream": "val",
+        "lean_module": "GrafeoModel.Props.C16",
+        "lean_files": ["GrafeoModel/Model/F64.lean", "GrafeoModel/Model/Val.lean", "GrafeoModel/Props/C16.lean"],
+        "cases": {"quick": 3000, "thorough": 150000},
+        "stateless": True,
+        "trusted_base": COMMON_TB + [
+            "modelled, not verified: IEEE-754 comparison/classification of f64 and the `i64 as f64` rounding (modelled on bit patterns, compared with the hardware on every generated pattern incl. an exhaustive table of special values), std::hash::Hash impls of primitives/str/slices (the words fed to a recording Hasher are compared exactly), derive(PartialEq/Hash) on Value/Timestamp/PropertyKey",
+        ],
+        "modelled": "types/value.rs: OrderedFloat64 (eq, cmp, hash), OrderableValue (eq, cmp, hash, type ordinals), HashableValue (eq, hash; nested lists, maps, vectors)",
+        "assumptions": ["serialisation round-trips (bincode WAL/snapshot, spill serializer, JSON) are not yet modelled: this check decides the compare/hash/order half",
+                        "HashableValue theorem covers values without maps; maps are covered by the correspondence stream only"],
+    },
+    "C17": {
+        "stream": "exec",
+        "lean_module": "GrafeoModel.Props.C17",
+        "lean_files": ["GrafeoModel/Model/Exec.lean", "GrafeoModel/Props/C17.lean"],
+        "cases": {"quick": 500, "thorough": 20000},
+        "stateless": True,
+        "trusted_base": COMMON_TB + [
+            "modelled, not verified: std BinaryHeap (abstracted as 'pop a run whose head is minimal' - the theorem holds for every such discipline), rayon/crossbeam scheduling (abstracted as an arbitrary permutation of morsels), f64 sums (modelled over integers; the stream uses integer data below 2^53)",
+        ],
+        "modelled": "parallel/morsel.rs generate_morsels; parallel/merge.rs merge_sorted_runs (single ascending key), MergeableAccumulator add/merge (count, sum, min, max, first over integers)",
+        "assumptions": ["push-based operators, ParallelPipeline::execute end-to-end, spilling sort/aggregate and spill-file cleanup are not yet modelled/streamed: this check decides the merge/partition building blocks"],
+    },
 }
